@@ -816,3 +816,106 @@ Proof.
     unfold is_oov, oov_id. rewrite E5. rewrite (dic_of_stamp HL 15 p) by (try lia; assumption). reflexivity.
   - intros w. unfold reported_dic. destruct (is_oov w); split; intros H; try reflexivity; try discriminate. lia.
 Qed.
+
+(* ---------- the plugin set-up sequence ---------- *)
+Definition plugin_order_ok : bool := oov_before_rewrite LF.plugin_setup_order.
+
+Lemma index_of_complete p : forall l a, In p l -> exists i, index_of p l a = Some i.
+Proof.
+  induction l as [|x t IH]; intros a Hin; [contradiction|]. cbn [index_of].
+  destruct (x =? p) eqn:E; [eexists; reflexivity|]. destruct Hin as [->|Hin]; [rewrite N.eqb_refl in E; discriminate|].
+  exact (IH (a + 1) Hin).
+Qed.
+
+Lemma index_of_names p : forall l a i, index_of p l a = Some i -> a <= i /\ nth_error l (N.to_nat (i - a)) = Some p.
+Proof.
+  induction l as [|x t IH]; intros a i H; cbn [index_of] in H; [discriminate|].
+  destruct (x =? p) eqn:E.
+  - injection H as <-. apply N.eqb_eq in E. subst x. rewrite N.sub_diag. split; [lia|reflexivity].
+  - destruct (IH _ _ H) as [Hle Hn]. split; [lia|].
+    replace (N.to_nat (i - a)) with (S (N.to_nat (i - (a + 1)))) by lia. exact Hn.
+Qed.
+
+Lemma resolve_all_total pl : forall ps, (forall p, In p ps -> In p pl) -> exists ids, resolve_all pl ps = Some ids.
+Proof.
+  induction ps as [|p t IH]; intros H; [eexists; reflexivity|]. cbn [resolve_all].
+  destruct (index_of_complete p pl 0 (H p (or_introl eq_refl))) as [i ->].
+  destruct (IH (fun q Hq => H q (or_intror Hq))) as [l ->]. eexists. reflexivity.
+Qed.
+
+Lemma resolve_all_names pl : forall ps ids, resolve_all pl ps = Some ids ->
+  length ids = length ps /\ forall k p, nth_error ps k = Some p -> nth_error pl (N.to_nat (nth k ids 0)) = Some p.
+Proof.
+  induction ps as [|p t IH]; intros ids H; cbn [resolve_all] in H.
+  - injection H as <-. split; [reflexivity|]. intros [|k]; discriminate.
+  - destruct (index_of p pl 0) as [i|] eqn:Ei; [|discriminate]. destruct (resolve_all pl t) as [l|] eqn:El; [|discriminate].
+    injection H as <-. destruct (IH l eq_refl) as [Hlen Hn]. split; [cbn [length]; rewrite Hlen; reflexivity|].
+    intros [|k] q Hq; cbn [nth_error nth] in *.
+    + injection Hq as <-. destruct (index_of_names p pl 0 i Ei) as [_ Hi]. rewrite N.sub_0_r in Hi. exact Hi.
+    + exact (Hn k q Hq).
+Qed.
+
+Section SetupOrder.
+Hypothesis HG : guards_ok = true.
+
+(* providers first: whenever the providers load, every POS any of them asked for -- registered by it or known before -- is in
+   the table the path-rewrite plugins see, so a path-rewrite plugin that names only such POS (or POS of the dictionary) loads
+   too, and each of its ids names the POS it asked for *)
+Lemma setup_oov_first_total pl oov rw pl' ids :
+  load_plugins pl oov = Some (pl', ids) ->
+  (forall p, In p rw -> In p pl \/ exists allow, In (p, allow) oov) ->
+  exists rids, setup_oov_first pl oov rw = Some (pl', ids, rids) /\
+               forall k p, nth_error rw k = Some p -> nth_error pl' (N.to_nat (nth k rids 0)) = Some p.
+Proof.
+  intros Hl Hrw. destruct (load_plugins_spec HG _ _ _ _ Hl) as ([ext ->] & _ & Hn).
+  assert (Hin : forall p, In p rw -> In p (pl ++ ext)).
+  { intros p Hp. destruct (Hrw p Hp) as [H|[allow H]]; [apply in_or_app; left; exact H|].
+    destruct (In_nth_error _ _ H) as [k Hk]. exact (nth_error_In _ _ (Hn k p allow Hk)). }
+  destruct (resolve_all_total (pl ++ ext) rw Hin) as [rids Hr]. exists rids. unfold setup_oov_first. rewrite Hl, Hr.
+  split; [reflexivity|]. exact (proj2 (resolve_all_names _ _ _ Hr)).
+Qed.
+
+(* ids handed out earlier never change: the providers only append, so every id of the dictionary's own POS (and of every
+   provider set up before) still names the same POS after the whole set-up *)
+Lemma setup_ids_stable pl oov rw pl' ids rids :
+  setup_oov_first pl oov rw = Some (pl', ids, rids) ->
+  (forall i p, nth_error pl i = Some p -> nth_error pl' i = Some p) /\
+  (forall k p allow, nth_error oov k = Some (p, allow) -> nth_error pl' (N.to_nat (nth k ids 0)) = Some p) /\
+  (forall k p, nth_error rw k = Some p -> nth_error pl' (N.to_nat (nth k rids 0)) = Some p).
+Proof.
+  unfold setup_oov_first. destruct (load_plugins pl oov) as [[pl1 ids1]|] eqn:Hl; [|discriminate].
+  destruct (resolve_all pl1 rw) as [r1|] eqn:Hr; [|discriminate]. intros H. injection H as <- <- <-.
+  destruct (load_plugins_spec HG _ _ _ _ Hl) as ([ext ->] & _ & Hn). split; [|split].
+  - intros i p Hi. apply nth_error_app_some. exact Hi.
+  - exact Hn.
+  - exact (proj2 (resolve_all_names _ _ _ Hr)).
+Qed.
+
+(* whatever loads with the path-rewrite plugins first also loads, with the same result, with the providers first *)
+Lemma setup_rewrite_first_weaker pl oov rw r :
+  setup_rewrite_first pl oov rw = Some r -> setup_oov_first pl oov rw = Some r.
+Proof.
+  unfold setup_rewrite_first, setup_oov_first. destruct (resolve_all pl rw) as [rids|] eqn:Hr; [|discriminate].
+  destruct (load_plugins pl oov) as [[pl' ids]|] eqn:Hl; [|discriminate]. intros H. injection H as <-.
+  destruct (load_plugins_spec HG _ _ _ _ Hl) as ([ext ->] & _ & _).
+  assert (Hsame : resolve_all (pl ++ ext) rw = Some rids).
+  { clear Hl. revert rids Hr. induction rw as [|p t IH]; intros rids Hr; cbn [resolve_all] in *; [exact Hr|].
+    destruct (index_of p pl 0) as [i|] eqn:Ei; [|discriminate]. destruct (resolve_all pl t) as [l|] eqn:El; [|discriminate].
+    injection Hr as <-. rewrite (IH l eq_refl).
+    assert (Hi : index_of p (pl ++ ext) 0 = Some i).
+    { clear -Ei. revert Ei. generalize 0 as a. induction pl as [|x u IHu]; intros a Ei; cbn [index_of app] in *; [discriminate|].
+      destruct (x =? p); [exact Ei|exact (IHu _ Ei)]. }
+    rewrite Hi. reflexivity. }
+  rewrite Hsame. reflexivity.
+Qed.
+End SetupOrder.
+
+(* with the order the code has, the set-up is the providers-first one *)
+Lemma setup_is_oov_first : plugin_order_ok = true -> forall pl oov rw, setup pl oov rw = setup_oov_first pl oov rw.
+Proof. unfold plugin_order_ok, setup. intros -> pl oov rw. reflexivity. Qed.
+
+(* the swapped order fails to load a configuration the documented order loads: the dictionary has POS 0, a provider registers
+   POS 5 (userPOS allow), a path-rewrite plugin names POS 5 *)
+Lemma setup_swapped_refuted :
+  exists pl oov rw, setup_oov_first pl oov rw <> None /\ setup_rewrite_first pl oov rw = None.
+Proof. exists [0], [(5, true)], [5]. split; [vm_compute; discriminate|vm_compute; reflexivity]. Qed.
